@@ -16,12 +16,16 @@ set_option linter.unusedSimpArgs false
 
 theorem cC_append (x : Nat) (a b : List Msg) : cC x (a ++ b) = cC x a + cC x b := by simp [cC]
 theorem cAP_append (x : Nat) (a b : List Msg) : cAP x (a ++ b) = cAP x a + cAP x b := by simp [cAP]
+theorem cB_append (x : Nat) (a b : List Msg) : cB x (a ++ b) = cB x a + cB x b := by simp [cB]
 theorem cC_cons (x : Nat) (m : Msg) (r : List Msg) : cC x (m :: r) = cC x r + (if isConn x m then 1 else 0) := by
   simp [cC, List.countP_cons]
 theorem cAP_cons (x : Nat) (m : Msg) (r : List Msg) : cAP x (m :: r) = cAP x r + (if isAP x m then 1 else 0) := by
   simp [cAP, List.countP_cons]
+theorem cB_cons (x : Nat) (m : Msg) (r : List Msg) : cB x (m :: r) = cB x r + (if isBind x m then 1 else 0) := by
+  simp [cB, List.countP_cons]
 @[simp] theorem cC_nil (x : Nat) : cC x [] = 0 := rfl
 @[simp] theorem cAP_nil (x : Nat) : cAP x [] = 0 := rfl
+@[simp] theorem cB_nil (x : Nat) : cB x [] = 0 := rfl
 
 theorem inMsgs_cons_msg (m : Msg) (r : List WsIn) : inMsgs (.msg m :: r) = m :: inMsgs r := rfl
 
@@ -31,113 +35,165 @@ theorem cC_inMsgs_cons (x : Nat) (w : WsIn) (r : List WsIn) :
 theorem cAP_inMsgs_cons (x : Nat) (w : WsIn) (r : List WsIn) :
     cAP x (inMsgs (w :: r)) = cAP x (inMsgs r) + (match w with | .msg m => if isAP x m then 1 else 0 | _ => 0) := by
   cases w <;> simp [inMsgs, cAP_cons]
-
-theorem cC_inMsgs_snoc_le (x : Nat) (l l' : List WsIn) : cC x (inMsgs l) ≤ cC x (inMsgs (l ++ l')) := by
-  rw [inMsgs_append, cC_append]; omega
-theorem cAP_inMsgs_snoc_le (x : Nat) (l l' : List WsIn) : cAP x (inMsgs l) ≤ cAP x (inMsgs (l ++ l')) := by
-  rw [inMsgs_append, cAP_append]; omega
+theorem cB_inMsgs_cons (x : Nat) (w : WsIn) (r : List WsIn) :
+    cB x (inMsgs (w :: r)) = cB x (inMsgs r) + (match w with | .msg m => if isBind x m then 1 else 0 | _ => 0) := by
+  cases w <;> simp [inMsgs, cB_cons]
 
 /-- Unfold the summary and the paths. -/
 macro "sm_unfold" : tactic =>
-  `(tactic| simp only [sm, PC.path, PC.swap, cC_append, cAP_append, cC_cons, cAP_cons, cC_nil, cAP_nil, inMsgs_append,
-      inMsgs_cons_msg, cC_inMsgs_cons, cAP_inMsgs_cons])
+  `(tactic| simp only [sm, PC.path, PC.swap, cC_append, cAP_append, cB_append, cC_cons, cAP_cons, cB_cons, cC_nil, cAP_nil,
+      cB_nil, inMsgs_append, inMsgs_cons_msg, cC_inMsgs_cons, cAP_inMsgs_cons, cB_inMsgs_cons])
 
 theorem sk_none : sk none = 0 := rfl
 
-theorem sm_act {c : PC} {v : View} {ws : List Msg} {acc : List Bytes} (h : AStep x j c.a v ws acc)
+theorem b2n_le (b : Bool) : b2n b ≤ 1 := by cases b <;> simp [b2n]
+theorem b2n_mono {a b : Bool} (h : a = true → b = true) : b2n a ≤ b2n b := by
+  cases a <;> cases b <;> simp_all [b2n]
+
+/-- The three kinds of frames that are not counted. -/
+theorem isFin_kinds {x : Nat} {m : Msg} (h : isFin x m = true) : isConn x m = false ∧ isAP x m = false ∧ isBind x m = false := by
+  cases m with
+  | frame f => cases f <;> first | (simp [isFin] at h; done) | simp [isConn, isAP, isAck, isPush, isBind]
+  | _ => simp [isFin] at h
+theorem isBind_kinds {x : Nat} {m : Msg} (h : isBind x m = true) : isConn x m = false ∧ isAP x m = false := by
+  cases m with
+  | frame f => cases f <;> first | (simp [isBind] at h; done) | simp [isConn, isAP, isAck, isPush]
+  | _ => simp [isBind] at h
+theorem isConn_kinds {x : Nat} {m : Msg} (h : isConn x m = true) : isAP x m = false ∧ isBind x m = false := by
+  cases m with
+  | frame f => cases f <;> first | (simp [isConn] at h; done) | simp [isBind, isAP, isAck, isPush]
+  | _ => simp [isConn] at h
+theorem isAck_kinds {x : Nat} {m : Msg} (h : isAck x m = true) : isConn x m = false ∧ isAP x m = true ∧ isBind x m = false := by
+  cases m with
+  | frame f => cases f <;> first | (simp [isAck] at h; done) | simp_all [isBind, isAP, isAck, isConn]
+  | _ => simp [isAck] at h
+
+/-- Close the sixteen numeric side goals of an `SStepL` constructor. -/
+macro "sm_fin" "[" ts:Lean.Parser.Tactic.simpLemma,* "]" : tactic =>
+  `(tactic| ((try simp [cC_inMsgs_cons, cAP_inMsgs_cons, cB_inMsgs_cons, cC_append, cAP_append, cB_append, cC_cons, cAP_cons,
+        cB_cons, inMsgs, b2n, sk, $ts,*]) <;> (try split) <;> (try omega)))
+
+theorem sm_act {c : PC} {v : View} {ws : List Msg} {acc : List Bytes} {xl : List XL} (h : AStep x j c.a v ws acc xl)
     (hn : v.rngNil = false) :
     SStepL (sm x c) (sm x { c with a := v, ab := if c.abOpen then c.ab ++ ws else c.ab }) := by
   cases h with
   | emit m r h =>
-    refine SStepL.shrink _ _ ?_ ?_ ?_ ?_ ?_ ?_ ?_ ?_ ?_ ?_ <;> sm_unfold <;> (try rw [h]) <;>
-      cases c.abOpen <;> simp [cC_cons, cAP_cons, cC_append, cAP_append] <;> omega
+    refine SStepL.shrink _ _ ?_ ?_ ?_ ?_ ?_ ?_ ?_ ?_ ?_ ?_ ?_ ?_ ?_ ?_ ?_ ?_ <;> sm_unfold <;> (try rw [h]) <;>
+      cases c.abOpen <;> (try simp [cC_cons, cAP_cons, cB_cons, cC_append, cAP_append, cB_append]) <;> (try omega)
   | sendClose =>
-    refine SStepL.shrink _ _ ?_ ?_ ?_ ?_ ?_ ?_ ?_ ?_ ?_ ?_ <;> sm_unfold <;>
-      cases c.abOpen <;> simp [cC_cons, cAP_cons, cC_append, cAP_append, isConn, isAP, isAck, isPush]
-  | enq m hc h1 h2 =>
-    by_cases hap : isAP x m = true
-    · refine SStepL.enqAP _ _ (h2 (by simpa [isAP] using hap)) ?_ ?_ ?_ ?_ ?_ ?_ ?_ ?_ ?_ ?_ <;> sm_unfold <;>
-        cases c.abOpen <;> (try simp [h1, hap]) <;> (try omega)
-    · refine SStepL.shrink _ _ ?_ ?_ ?_ ?_ ?_ ?_ ?_ ?_ ?_ ?_ <;> sm_unfold <;>
-        cases c.abOpen <;> (try simp [h1, hap]) <;> (try omega)
+    refine SStepL.shrink _ _ ?_ ?_ ?_ ?_ ?_ ?_ ?_ ?_ ?_ ?_ ?_ ?_ ?_ ?_ ?_ ?_ <;>
+      sm_unfold <;> cases c.abOpen <;> sm_fin [isConn, isAP, isAck, isPush, isBind]
+  | enq m hc h1 h3 h4 h5 h2 =>
+    by_cases hak : isAck x m = true
+    · have hap : isAP x m = true := by simp [isAP, hak]
+      refine SStepL.enqAP _ _ false (by simpa [sm] using h2 hak) ?_ ?_ ?_ ?_ ?_ ?_ ?_ ?_ ?_ ?_ ?_ ?_ ?_ ?_ ?_ ?_ <;>
+        sm_unfold <;> cases c.abOpen <;> sm_fin [h1, hap, h5]
+    · have hap : isAP x m = false := by simp [isAP, hak, h3]
+      refine SStepL.shrink _ _ ?_ ?_ ?_ ?_ ?_ ?_ ?_ ?_ ?_ ?_ ?_ ?_ ?_ ?_ ?_ ?_ <;> sm_unfold <;> cases c.abOpen <;> sm_fin [h1, hap, h5]
+  | enqPush d hc hw =>
+    refine SStepL.enqAP _ _ true (by simpa [sm] using hw) ?_ ?_ ?_ ?_ ?_ ?_ ?_ ?_ ?_ ?_ ?_ ?_ ?_ ?_ ?_ ?_ <;>
+      sm_unfold <;> cases c.abOpen <;> sm_fin [isConn, isAP, isAck, isPush, isBind]
+  | enqFinS hc hw =>
+    refine SStepL.shrink _ _ ?_ ?_ ?_ ?_ ?_ ?_ ?_ ?_ ?_ ?_ ?_ ?_ ?_ ?_ ?_ ?_ <;>
+      sm_unfold <;> cases c.abOpen <;> sm_fin [isConn, isAP, isAck, isPush, isBind]
+  | enqFinB hc hb =>
+    refine SStepL.shrink _ _ ?_ ?_ ?_ ?_ ?_ ?_ ?_ ?_ ?_ ?_ ?_ ?_ ?_ ?_ ?_ ?_ <;>
+      sm_unfold <;> cases c.abOpen <;> sm_fin [isConn, isAP, isAck, isPush, isBind]
   | rng k n hc hn' =>
-    refine SStepL.shrink _ _ ?_ ?_ ?_ ?_ ?_ ?_ ?_ ?_ ?_ ?_ <;> sm_unfold <;> cases c.abOpen <;> (try simp [hc]) <;> (try omega)
-  | draw k n s m hc hn' hd hs ho hne hm1 hm2 =>
+    refine SStepL.shrink _ _ ?_ ?_ ?_ ?_ ?_ ?_ ?_ ?_ ?_ ?_ ?_ ?_ ?_ ?_ ?_ ?_ <;> sm_unfold <;> cases c.abOpen <;> sm_fin [hc]
+  | draw k n s m hc hn' hd hs ho hk' =>
     have hk : k < c.a.cnt := by
       rcases hd with hd | hd
       · exact hd
       · simp only at hn; rw [hd] at hn; cases hn
-    have hsk : sk (some s) = 1 := by
-      cases s with
-      | requested r => rfl
-      | bindRequested r => rfl
-      | established i => exact absurd rfl (hne i)
-    have hap : isAP x m = false := by simp [isAP, hm1, hm2]
-    refine SStepL.draw _ _ ?_ ?_ ?_ ?_ ?_ ?_ ?_ ?_ ?_ ?_ <;> sm_unfold <;>
-      cases c.abOpen <;> (try simp [hk, hs, hsk, sk_none, hap]) <;> (try split) <;> (try omega)
+    rcases hk' with ⟨q, rfl, hm⟩ | ⟨q, rfl, hm⟩
+    · obtain ⟨k1, k2⟩ := isConn_kinds hm
+      refine SStepL.draw _ _ false ?_ ?_ ?_ ?_ ?_ ?_ ?_ ?_ ?_ ?_ ?_ ?_ ?_ ?_ ?_ ?_ <;> sm_unfold <;> cases c.abOpen <;> sm_fin [hk, hs, hm, k1, k2]
+    · obtain ⟨k1, k2⟩ := isBind_kinds hm
+      refine SStepL.draw _ _ true ?_ ?_ ?_ ?_ ?_ ?_ ?_ ?_ ?_ ?_ ?_ ?_ ?_ ?_ ?_ ?_ <;> sm_unfold <;> cases c.abOpen <;> sm_fin [hk, hs, hm, k1, k2]
   | pop w r h hw =>
-    refine SStepL.shrink _ _ ?_ ?_ ?_ ?_ ?_ ?_ ?_ ?_ ?_ ?_ <;> sm_unfold <;> (try rw [h]) <;>
-      cases c.abOpen <;> (try simp [cC_inMsgs_cons, cAP_inMsgs_cons]) <;> (try omega)
+    refine SStepL.shrink _ _ ?_ ?_ ?_ ?_ ?_ ?_ ?_ ?_ ?_ ?_ ?_ ?_ ?_ ?_ ?_ ?_ <;> sm_unfold <;> (try rw [h]) <;>
+      cases c.abOpen <;> (try simp [cC_inMsgs_cons, cAP_inMsgs_cons, cB_inMsgs_cons])
     all_goals
       cases w with
-      | msg m => obtain ⟨q1, q2, q3⟩ := hw m rfl; simp [q1, isAP, q2, q3]
+      | msg m => obtain ⟨q1, q2, q3, q4, q5⟩ := hw m rfl; simp [q1, isAP, q2, q3, q5]
       | _ => simp
-  | degrade s k hs hk =>
-    refine SStepL.shrink _ _ ?_ ?_ ?_ ?_ ?_ ?_ ?_ ?_ ?_ ?_ <;> sm_unfold <;> cases c.abOpen <;> (try simp) <;> (try omega)
+  | popFin r s h hs =>
+    refine SStepL.shrink _ _ ?_ ?_ ?_ ?_ ?_ ?_ ?_ ?_ ?_ ?_ ?_ ?_ ?_ ?_ ?_ ?_ <;> sm_unfold <;> (try rw [h]) <;>
+      cases c.abOpen <;>
+      (try simp [cC_inMsgs_cons, cAP_inMsgs_cons, cB_inMsgs_cons, isConn, isAP, isAck, isPush, isBind]) <;> (try omega)
+    all_goals
+      rcases hs with ⟨i, h1, h2⟩ | ⟨_, h2⟩
+      · exact Or.inl (by rw [h2])
+      · exact Or.inr (by rw [h2]; rfl)
+  | popBind m r b h hm hb =>
+    obtain ⟨k1, k2⟩ := isBind_kinds hm
+    have hb1 := b2n_mono hb
+    have hb2 := b2n_le b
+    refine SStepL.popBind _ _ ?_ ?_ ?_ ?_ ?_ ?_ ?_ ?_ ?_ ?_ ?_ ?_ ?_ ?_ ?_ ?_ <;> sm_unfold <;> (try rw [h]) <;>
+      cases c.abOpen <;> (try simp [cC_inMsgs_cons, cAP_inMsgs_cons, cB_inMsgs_cons, hm, k1, k2]) <;> (try omega)
+    all_goals exact ⟨hb1, hb2⟩
+  | degrade s k w b rx hs hk hkeep hw hb hr =>
+    have hb1 := b2n_mono hb
+    refine SStepL.shrink _ _ ?_ ?_ ?_ ?_ ?_ ?_ ?_ ?_ ?_ ?_ ?_ ?_ ?_ ?_ ?_ ?_ <;> sm_unfold <;> cases c.abOpen <;>
+      (try simp) <;> (try omega) <;> (try exact hb1)
     all_goals
       rcases hs with hs | hs
       · exact Or.inl (by rw [hs])
       · exact Or.inr (by rw [hs]; rfl)
   | connRej m r h hm =>
-    refine SStepL.shrink _ _ ?_ ?_ ?_ ?_ ?_ ?_ ?_ ?_ ?_ ?_ <;> sm_unfold <;> (try rw [h]) <;>
-      cases c.abOpen <;> (try simp [cC_inMsgs_cons, cAP_inMsgs_cons]) <;> (try omega)
+    refine SStepL.shrink _ _ ?_ ?_ ?_ ?_ ?_ ?_ ?_ ?_ ?_ ?_ ?_ ?_ ?_ ?_ ?_ ?_ <;> sm_unfold <;> (try rw [h]) <;>
+      cases c.abOpen <;> (try simp [cC_inMsgs_cons, cAP_inMsgs_cons, cB_inMsgs_cons]) <;> (try omega)
   | connNew m r n h hm hs =>
-    have hap : isAP x m = false := by simp [isAP, isConn_not_ack hm, isConn_not_push hm]
-    refine SStepL.connNew _ _ ?_ ?_ ?_ ?_ ?_ ?_ ?_ ?_ ?_ ?_ <;> sm_unfold <;> (try rw [h]) <;>
-      cases c.abOpen <;> (try simp [cC_inMsgs_cons, cAP_inMsgs_cons, hm, hap, hs, sk, sk_none]) <;>
-      (try split) <;> (try simp [cC_append, cAP_append, cC_cons, cAP_cons, isConn, isAP, isAck]) <;> (try omega)
+    obtain ⟨k1, k2⟩ := isConn_kinds hm
+    refine SStepL.connNew _ _ ?_ ?_ ?_ ?_ ?_ ?_ ?_ ?_ ?_ ?_ ?_ ?_ ?_ ?_ ?_ ?_ <;> sm_unfold <;> (try rw [h]) <;>
+      cases c.abOpen <;> (try simp [cC_inMsgs_cons, cAP_inMsgs_cons, cB_inMsgs_cons, hm, k1, k2, hs, sk, sk_none]) <;>
+      (try split) <;> (try simp [cC_append, cAP_append, cB_append, cC_cons, cAP_cons, cB_cons, isConn, isAP, isAck, isBind]) <;>
+      (try omega)
   | ackNew m r q h hm hs =>
-    have hap : isAP x m = true := by simp [isAP, hm]
-    have hcn : isConn x m = false := isAck_not_conn hm
-    refine SStepL.ackNew _ _ ?_ ?_ ?_ ?_ ?_ ?_ ?_ ?_ ?_ ?_ <;> sm_unfold <;> (try rw [h]) <;>
-      cases c.abOpen <;> (try simp [cC_inMsgs_cons, cAP_inMsgs_cons, hcn, hap, hs, sk]) <;> (try omega)
+    obtain ⟨k1, k2, k3⟩ := isAck_kinds hm
+    refine SStepL.ackNew _ _ ?_ ?_ ?_ ?_ ?_ ?_ ?_ ?_ ?_ ?_ ?_ ?_ ?_ ?_ ?_ ?_ <;> sm_unfold <;> (try rw [h]) <;>
+      cases c.abOpen <;> (try simp [cC_inMsgs_cons, cAP_inMsgs_cons, cB_inMsgs_cons, k1, k2, k3, hs, sk]) <;> (try omega)
   | ackOld m r h hm hs =>
-    refine SStepL.shrink _ _ ?_ ?_ ?_ ?_ ?_ ?_ ?_ ?_ ?_ ?_ <;> sm_unfold <;> (try rw [h]) <;>
-      cases c.abOpen <;> (try simp [cC_inMsgs_cons, cAP_inMsgs_cons]) <;> (try omega)
+    refine SStepL.shrink _ _ ?_ ?_ ?_ ?_ ?_ ?_ ?_ ?_ ?_ ?_ ?_ ?_ ?_ ?_ ?_ ?_ <;> sm_unfold <;> (try rw [h]) <;>
+      cases c.abOpen <;> (try simp [cC_inMsgs_cons, cAP_inMsgs_cons, cB_inMsgs_cons]) <;> (try omega)
   | pushAcc d r h hc =>
-    refine SStepL.shrink _ _ ?_ ?_ ?_ ?_ ?_ ?_ ?_ ?_ ?_ ?_ <;> sm_unfold <;> (try rw [h]) <;>
-      cases c.abOpen <;> (try simp [cC_inMsgs_cons, cAP_inMsgs_cons]) <;> (try omega)
+    refine SStepL.shrink _ _ ?_ ?_ ?_ ?_ ?_ ?_ ?_ ?_ ?_ ?_ ?_ ?_ ?_ ?_ ?_ ?_ <;> sm_unfold <;> (try rw [h]) <;>
+      cases c.abOpen <;> (try simp [cC_inMsgs_cons, cAP_inMsgs_cons, cB_inMsgs_cons]) <;> (try omega)
   | pushRej d r s h hs =>
-    refine SStepL.shrink _ _ ?_ ?_ ?_ ?_ ?_ ?_ ?_ ?_ ?_ ?_ <;> sm_unfold <;> (try rw [h]) <;>
-      cases c.abOpen <;> (try simp [cC_inMsgs_cons, cAP_inMsgs_cons]) <;> (try omega)
+    refine SStepL.shrink _ _ ?_ ?_ ?_ ?_ ?_ ?_ ?_ ?_ ?_ ?_ ?_ ?_ ?_ ?_ ?_ ?_ <;> sm_unfold <;> (try rw [h]) <;>
+      cases c.abOpen <;> (try simp [cC_inMsgs_cons, cAP_inMsgs_cons, cB_inMsgs_cons]) <;> (try omega)
     all_goals
       rcases hs with hs | hs
       · exact Or.inl (by rw [hs.1])
       · exact Or.inr (by rw [hs]; rfl)
   | grow n h =>
-    refine SStepL.shrink _ _ ?_ ?_ ?_ ?_ ?_ ?_ ?_ ?_ ?_ ?_ <;> sm_unfold <;> cases c.abOpen <;> (try simp) <;> (try omega)
+    refine SStepL.shrink _ _ ?_ ?_ ?_ ?_ ?_ ?_ ?_ ?_ ?_ ?_ ?_ ?_ ?_ ?_ ?_ ?_ <;> sm_unfold <;> cases c.abOpen <;> sm_fin []
   | clearInbox =>
-    refine SStepL.shrink _ _ ?_ ?_ ?_ ?_ ?_ ?_ ?_ ?_ ?_ ?_ <;> sm_unfold <;> cases c.abOpen <;> (try simp [inMsgs, sk]) <;> (try omega)
+    refine SStepL.shrink _ _ ?_ ?_ ?_ ?_ ?_ ?_ ?_ ?_ ?_ ?_ ?_ ?_ ?_ ?_ ?_ ?_ <;> sm_unfold <;> cases c.abOpen <;> sm_fin []
   | closeOut =>
-    refine SStepL.shrink _ _ ?_ ?_ ?_ ?_ ?_ ?_ ?_ ?_ ?_ ?_ <;> sm_unfold <;> cases c.abOpen <;> (try simp) <;> (try omega)
+    refine SStepL.shrink _ _ ?_ ?_ ?_ ?_ ?_ ?_ ?_ ?_ ?_ ?_ ?_ ?_ ?_ ?_ ?_ ?_ <;> sm_unfold <;> cases c.abOpen <;> sm_fin []
   | clearOutq =>
-    refine SStepL.shrink _ _ ?_ ?_ ?_ ?_ ?_ ?_ ?_ ?_ ?_ ?_ <;> sm_unfold <;> cases c.abOpen <;> (try simp) <;> (try omega)
+    refine SStepL.shrink _ _ ?_ ?_ ?_ ?_ ?_ ?_ ?_ ?_ ?_ ?_ ?_ ?_ ?_ ?_ ?_ ?_ <;> sm_unfold <;> cases c.abOpen <;> sm_fin []
 
-theorem sm_stepL {c c' : PC} {ws : List Msg} {acc : List Bytes} (st : CStepL x j c c' ws acc)
+theorem sm_stepL {c c' : PC} {ws : List Msg} {acc : List Bytes} {xl : List XL} (st : CStepL x j c c' ws acc xl)
     (hn : c'.a.rngNil = false) : SStepL (sm x c) (sm x c') := by
   cases st with
-  | act v ws acc h => exact sm_act h hn
+  | act v ws acc xl h => exact sm_act h hn
   | dlv m rest h hm =>
-    refine SStepL.shrink _ _ ?_ ?_ ?_ ?_ ?_ ?_ ?_ ?_ ?_ ?_ <;> sm_unfold <;> (try rw [h]) <;>
-      cases deaf c.a <;> (try simp [cC_cons, cAP_cons, cC_append, cAP_append, inMsgs, inMsgs_append]) <;> (try omega)
-  | dlvClose rest h =>
-    refine SStepL.shrink _ _ ?_ ?_ ?_ ?_ ?_ ?_ ?_ ?_ ?_ ?_ <;> sm_unfold <;> (try rw [h]) <;>
+    refine SStepL.shrink _ _ ?_ ?_ ?_ ?_ ?_ ?_ ?_ ?_ ?_ ?_ ?_ ?_ ?_ ?_ ?_ ?_ <;> sm_unfold <;> (try rw [h]) <;>
       cases deaf c.a <;>
-      (try simp [cC_cons, cAP_cons, cC_append, cAP_append, inMsgs, inMsgs_append, isConn, isAP, isAck, isPush]) <;>
+      (try simp [cC_cons, cAP_cons, cB_cons, cC_append, cAP_append, cB_append, inMsgs, inMsgs_append]) <;> (try omega)
+  | dlvClose rest h =>
+    refine SStepL.shrink _ _ ?_ ?_ ?_ ?_ ?_ ?_ ?_ ?_ ?_ ?_ ?_ ?_ ?_ ?_ ?_ ?_ <;> sm_unfold <;> (try rw [h]) <;>
+      cases deaf c.a <;>
+      (try simp [cC_cons, cAP_cons, cB_cons, cC_append, cAP_append, cB_append, inMsgs, inMsgs_append, isConn, isAP, isAck,
+        isPush, isBind]) <;>
       (try omega)
   | cut w hw =>
     have hw' : inMsgs [w] = [] := by cases w <;> first | rfl | (simp [isEnd] at hw)
-    refine SStepL.shrink _ _ ?_ ?_ ?_ ?_ ?_ ?_ ?_ ?_ ?_ ?_ <;> sm_unfold <;>
-      cases deaf c.a <;> (try simp [cC_cons, cAP_cons, cC_append, cAP_append, inMsgs_append, hw']) <;> (try omega)
+    refine SStepL.shrink _ _ ?_ ?_ ?_ ?_ ?_ ?_ ?_ ?_ ?_ ?_ ?_ ?_ ?_ ?_ ?_ ?_ <;> sm_unfold <;>
+      cases deaf c.a <;>
+      (try simp [cC_cons, cAP_cons, cB_cons, cC_append, cAP_append, cB_append, inMsgs_append, hw']) <;> (try omega)
 
 end Penguin.PairAll
